@@ -553,15 +553,31 @@ func (in *interp) putIndexed(base val, ixs []val, v val, what string) val {
 			if child.k == kNull {
 				child = vAbsent
 			}
+			if len(ixs) > 1 && child.k == kMap && ixs[1].k == kInt {
+				in.tag("int-key-into-map-element-of-array")
+			}
 			if len(ixs) > 1 && child.k != kAbsent && !child.isColl() {
 				uncon("indexing through a scalar")
 			}
 			base.a[i-1] = in.putIndexed(child, ixs[1:], v, what)
 		case i == n+1:
 			in.hit("sem:array-auto-extend-by-one")
+			if len(ixs) > 1 {
+				in.tag("array-extend-through-nonfinal-index")
+				if ixs[1].k == kInt {
+					uncon("auto-create of an array element through an integer index (map or array: not documented)")
+				}
+			}
 			base.a = append(base.a, in.putIndexed(vAbsent, ixs[1:], v, what))
 		default:
 			in.hit("sem:array-null-gap-fill")
+			in.tag("null-gap")
+			if len(ixs) > 1 {
+				in.tag("array-extend-through-nonfinal-index")
+				if ixs[1].k == kInt {
+					uncon("auto-create of an array element through an integer index (map or array: not documented)")
+				}
+			}
 			for int64(len(base.a)) < i-1 {
 				base.a = append(base.a, val{k: kNull})
 			}
@@ -834,6 +850,7 @@ func (in *interp) emitRecord(m *omap) {
 // ---------------------------------------------------------------- program driver
 
 type outcome struct {
+	tags   []string
 	items  []item
 	fatal  string
 	uncon  string
@@ -850,6 +867,7 @@ func runReference(p program, input []*omap, hits map[string]int64) (res outcome)
 	funcLitTable = funcLitTable[:0]
 	defer func() {
 		res.items = in.out
+		res.tags = in.tags
 		if r := recover(); r != nil {
 			switch e := r.(type) {
 			case fatalErr:
